@@ -1,4 +1,5 @@
 import IGVerif.Props.Ties
+import IGVerif.Proofs.VisValues
 /-! C09 — the visual tree shows exactly the parsed statement.
     The printed structure is decided by the visual model (`Vis.visTop`, compared byte for byte
     with `PrintTree` by the correspondence check); the obligations here fix how the model is
@@ -22,5 +23,15 @@ theorem nested_one_level_deeper :
       [("n.Entry.(*Statement)", some "nestingLevel + 1"),
        ("n.Entry.([]*Node)[0].Entry.(*Statement)", some "nestingLevel + 1")] := by decide
 
+
+/-- **Every value once, under its component label, with its shared text**: for a component
+    tree of any shape the printer emits exactly one value object per leaf, in the written
+    order, named by the leaf's text framed by the shared text it inherits, labelled with the
+    leaf's (effective) component and the nesting level; operators only group these objects,
+    nested statements are documents of their own (one level deeper, see `nested_one_level_deeper`) -/
+theorem values_shown_are_the_tree_values (o : Vis.VOpts) (fs : PStmt) (level : Nat) (fuel : Nat) (n : PNode) (c : Ctx)
+    (pop : Option Str) (pcomp : Str) (h : Vis.height n ≤ fuel) :
+    Vis.valuesL (Vis.nodeJ o fuel fs level c pop pcomp n) = Vis.pvalues level c n :=
+  Vis.values_nodeJ o fs level fuel n c pop pcomp h
 
 end IGVerif.C09
